@@ -264,7 +264,9 @@ impl Distrib for Uniform<f32> {
         // Leaves a lot of precision unused near zero, but it's okay.
         let (exp, mantissa) = (127 << 23, rng.next_bits() >> 41);
         let unit = f32::from_bits(exp | mantissa as u32) - 1.0;
-        unit * (end - start) + start
+        let val = unit * (end - start) + start;
+        // Rounding may take the result up to `end`; keep the range half-open
+        if val < end { val } else { end.next_down() }
     }
 }
 
